@@ -96,6 +96,64 @@ theorem index_runs (G : GCtx) (A : Act) (hA : A.OK G) (sp : Span) (ip : Nat) (st
       rfl
     · trivial
 
+theorem memberVal_dot_heap (b : Val) (name : String) (sp : Span) (st st' : St) (h : st'.heap = st.heap) :
+    (memberVal b name .dot sp st').1 = (memberVal b name .dot sp st).1 := by
+  rw [memberVal_dot, memberVal_dot]
+  cases b <;> try rfl
+  case ref a =>
+    simp only [h]
+    cases st.heap[a]? with
+    | none => rfl
+    | some c =>
+      cases c <;> try rfl
+      rename_i fs; simp only []; cases fs.lookup name <;> rfl
+  case range x y i =>
+    simp only []
+    split
+    · rfl
+    · split <;> rfl
+
+theorem memberVal_dot_error (b : Val) (name : String) (sp : Span) (st : St) (c : Ctl) (st' : St)
+    (h : memberVal b name .dot sp st = (.error c, st')) : ∃ w, c = .unsupported w := by
+  rw [memberVal_dot] at h
+  cases b <;> try (cases h; done)
+  case ref a =>
+    simp only [] at h
+    cases hc : st.heap[a]? with
+    | none => rw [hc] at h; cases h; exact ⟨_, rfl⟩
+    | some cl =>
+      rw [hc] at h
+      cases cl <;> try (cases h; done)
+      rename_i fs; simp only [] at h; cases hl : fs.lookup name <;> rw [hl] at h <;> cases h
+  case range x y i =>
+    simp only [] at h
+    split at h
+    · cases h
+    · split at h <;> cases h
+
+/-- `Member` after the base: the specification's `memberVal`. -/
+theorem member_runs (G : GCtx) (A : Act) (hA : A.OK G) (sp : Span) (ip : Nat) (stk : List SVal) (mem : Mem)
+    (st : St) (bv : Val) (name : String) (ob : Option Org) (hx : A.c[ip]? = some (.member name, sp)) :
+    match memberVal bv name .dot sp st with
+    | (.ok v, _) => Runs G.fr G.code G.lim G.s A.fn A.rest A.mp ip (⟨bv, ob⟩ :: stk) mem st.world
+        (ip + 1) (⟨v, memOrg st.heap bv name⟩ :: stk) mem st.world
+    | (.error (.unsupported _), _) => True
+    | _ => False := by
+  have hvm : ∀ it, (memberVal bv name .dot sp { (withIt G.s it).st with heap := st.world.heap, out := st.world.out }).1 =
+      (memberVal bv name .dot sp st).1 := fun it => memberVal_dot_heap bv name sp st _ rfl
+  rcases hr : memberVal bv name .dot sp st with ⟨r, st'⟩
+  rw [hr] at hvm
+  simp only at hvm
+  cases r with
+  | ok v =>
+    refine Runs.of_exec1 (fr := G.fr) (mem := mem) (fun it_ k => ?_)
+    rw [mkS_member G.code G.lim (withIt G.s it_) A.fn ip A.rest A.mp k stk mem.cells st.world A.c hA.code sp name bv ob hx,
+      hvm it_]
+    rfl
+  | error c =>
+    obtain ⟨w, rfl⟩ := memberVal_dot_error bv name sp st c st' hr
+    trivial
+
 /-- **`Frag.okXE` is simulated**, given the expression fragment at all smaller fuels. -/
 theorem px_all (G : GCtx) : ∀ (n : Nat), (∀ m, m ≤ n → PE G m) → PX G n := by
   intro n
@@ -173,6 +231,38 @@ theorem px_all (G : GCtx) : ∀ (n : Nat), (∀ m, m ≤ n → PE G m) → PX G 
             cases c3 <;> first | trivial | exact hidx.elim | skip
             intro _
             exact hrun12.fatal hidx
+    case member sp ty b name mop =>
+      cases mop <;> try (simp [Frag.okXE, Frag.okGE] at hok; done)
+      simp only [Frag.okXE] at hok
+      simp only [Frag.varsGE, Frag.callsGE] at hres hcalls
+      have hwb : Frag.wsGE scopes A.φ b = true := by simp [Frag.wsGE, hres, hcalls]
+      have hTb : ∀ x ∈ Frag.namesGE b, x ∈ A.T := by
+        intro x hx; exact hT x (by simpa [Frag.namesGE, Frag.varsGE, Frag.callsGE] using hx)
+      simp only [cgE] at hpl ⊢
+      generalize hCB : cgE G.mod (ρS scopes) A.φ b lm = CB at hpl ⊢
+      obtain ⟨hpB, hX⟩ := hpl.append
+      obtain ⟨imem, _⟩ := hX.instr (i := .member name) rfl
+      have hnX : nI [((Instr.member name : SInstr), sp)] = 1 := rfl
+      simp only [nI_append, hnX] at ⊢
+      rw [evalExpr_member]
+      have h1 := ihn A hA b st ip stk mem lm scopes vm hok hwb hTb (hCB ▸ hpB) hrel hsp
+      rw [hCB] at h1
+      rcases heb : evalExpr G.cfg n b st with ⟨r1, st1⟩
+      rw [heb] at h1
+      cases r1 with
+      | error c1 => exact SimGE.error_n _ h1
+      | ok bv =>
+        obtain ⟨hfr1, mem1, ob, hrun1, hml1⟩ := h1
+        simp only []
+        have hmr := member_runs G A hA sp (ip + nI CB.1) stk mem1 st1 bv name ob imem
+        have hst := memberVal_dot_state bv name sp st1
+        rcases hr : memberVal bv name .dot sp st1 with ⟨r3, st3⟩
+        rw [hr] at hmr hst
+        simp only at hst
+        subst hst
+        cases r3 with
+        | ok v => exact ⟨hfr1, mem1, _, (hrun1.trans hmr).cast (by omega), hml1⟩
+        | error c3 => cases c3 <;> first | trivial | exact hmr.elim
     case grouped sp e =>
       simp only [Frag.okXE] at hok
       rw [evalExpr]
